@@ -7,6 +7,8 @@
 //! Cached boxes of circles: a circle obtained from EVERY public producer (new, from_point, clone, from_3_points,
 //! fitting_circle with initial guesses different from the answer, ransac, the `circle` field of every arc constructor)
 //! must carry the box [cx - r, cx + r] x [cy - r, cy + r] of the centre and radius it reports.
+//! Wave 5 (check_w5_*): the same clauses over magnitudes (2^-20 .. 2^20, 1e6 from the origin), exact ties (end points on the
+//! circle, ulps either side of tangency), all quadrants, long curves, start angles outside [-pi, pi]; see notes/w5_audit_C11.md.
 use super::Report;
 use crate::common::Intersection;
 use crate::geom2::{Arc2, Circle2, Curve2, HasBounds2, Point2, Segment2};
@@ -644,6 +646,12 @@ fn check_w5_outer_tangents(r: &mut Report) {
             for far in [1.0e4, 1.0e6] { cfgs.push(((0.0, 0.0, r0), (off.0 * far, off.1 * far, r1))); }
         }
     }
+    // the smaller circle reaches almost to the inside of the larger one's perimeter (centre distance |r0 - r1| + gap): the two
+    // tangent segments are short (length sqrt(gap (2 |r0 - r1| + gap))) but exist
+    for (ux, uy) in [(1.0, 0.0), (0.0, -1.0), (-0.6, 0.8)] { for gap in [0.5, 1e-2, 1e-4] { for (r0, r1) in [(1.0, 3.0), (3.0, 1.0), (0.25, 2.0)] {
+        let d = (r0 - r1 as f64).abs() + gap;
+        cfgs.push(((1.0, 2.0, r0), (1.0 + ux * d, 2.0 + uy * d, r1)));
+    } } }
     for ((ax, ay, r0), (bx, by, r1)) in cfgs {
         let (a, b) = (Circle2::new(ax, ay, r0), Circle2::new(bx, by, r1));
         let (ox, oy) = (bx - ax, by - ay);
@@ -658,7 +666,8 @@ fn check_w5_outer_tangents(r: &mut Report) {
             Some((s0, s1)) => {
                 r.check(fin(&s0.a) && fin(&s0.b) && fin(&s1.a) && fin(&s1.b), "outer tangents: no non-finite coordinate", desc);
                 // rounding: the tangent direction is known to about 1e-16 d / d, the end points to 1e-16 of the coordinates
-                let t = 1e-9 * (r0 + r1) + 1e-13 * (ax.abs() + ay.abs() + bx.abs() + by.abs() + d);
+                let amp = if d < 2.0 * rd { 1.0 + 1.0 / ((d - rd) / rd).sqrt() } else { 1.0 };
+                let t = (1e-9 * (r0 + r1) + 1e-13 * (ax.abs() + ay.abs() + bx.abs() + by.abs() + d)) * amp;
                 let touches = |s: &Segment2| {
                     let (tx, ty) = (s.b.x - s.a.x, s.b.y - s.a.y);
                     let l = (tx * tx + ty * ty).sqrt();
@@ -860,6 +869,19 @@ fn check_w5_arcs(r: &mut Report) {
         r.check(d2(&a3.start(), &circle_pt(cx, cy, rad, a0)) <= t3 && d2(&a3.end(), &circle_pt(cx, cy, rad, a0 + sw)) <= t3 && a3.angle == sw, "to_partial_arc and circle_point_angle build the same arc as circle_angles", || format!("Arc2::circle_point_angle(({:?}, {:?}), r {:?}, point at angle {:?}, sweep {:?}) -> angle0 {:?}", cx, cy, rad, a0, sw, a3.angle0));
         if rad > 1e-3 * (cx.abs() + cy.abs()) * 1e-6 { check_arc_box5(r, &a3, &format!("Arc2::circle_point_angle(({:?}, {:?}), r {:?}, point at angle {:?}, sweep {:?})", cx, cy, rad, a0, sw)); }
     } } }
+    // ---- short sweeps (0.01 .. 0.25 rad, both signs) that straddle an axis extreme asymmetrically: the box must still reach
+    // the extreme (centre +- r), which is up to r (1 - cos 0.18) beyond both end points
+    for (cx, cy, rad) in [(0.0, 0.0, 1.0), (3.0, -2.0, 7.5), (-50.0, 75.0, 0.25)] { for k in -2..=4 { for w in [0.01, 0.1, 0.25, -0.01, -0.1, -0.25] { for f in [0.3, 0.9] {
+        let a0 = k as f64 * PI / 2.0 - f * w;
+        r.case();
+        let c = Circle2::new(cx, cy, rad);
+        let what = format!("centre ({:?}, {:?}) r {:?}, start {:?}, sweep {:?} (straddles {} pi/2)", cx, cy, rad, a0, w, k);
+        check_arc_box5(r, &Arc2::circle_angles(p(cx, cy), rad, a0, w), &format!("Arc2::circle_angles, {}", what));
+        check_arc_box5(r, &c.to_partial_arc(a0, w), &format!("Circle2::to_partial_arc, {}", what));
+        check_arc_box5(r, &Arc2::circle_point_angle(p(cx, cy), rad, circle_pt(cx, cy, rad, a0), w), &format!("Arc2::circle_point_angle, {}", what));
+        // (three points 0.01 rad apart are collinear to from_3_points' absolute threshold: not in general position)
+        if rad * rad * w.abs().powi(3) > 5e-4 { check_arc_box5(r, &Arc2::three_points(circle_pt(cx, cy, rad, a0), circle_pt(cx, cy, rad, a0 + 0.4 * w), circle_pt(cx, cy, rad, a0 + w)), &format!("Arc2::three_points, {}", what)); }
+    } } } }
     // ---- three-point arcs on scaled / far rings: every 7th ordered triple of the 12 integer points of the radius-5 circle
     let ring = [(5.0, 0.0), (4.0, 3.0), (3.0, 4.0), (0.0, 5.0), (-3.0, 4.0), (-4.0, 3.0), (-5.0, 0.0), (-4.0, -3.0), (-3.0, -4.0), (0.0, -5.0), (3.0, -4.0), (4.0, -3.0)];
     for (cx, cy, k) in [(0.0, 0.0, 1.0 / 64.0), (0.0, 0.0, 1024.0), (1.0e4, -3.0e4, 1.0), (-2.0e5, 1.0e5, 256.0), (7.0, 7.0, 1048576.0)] {
@@ -898,7 +920,7 @@ fn check_w5_arcs(r: &mut Report) {
 }
 
 pub fn run() -> Option<Report> {
-    let mut r = Report::new("circle pairs: 3 centres x 12 offsets (centre distances 0, 0.5, 1, 2, 3, 4, 5, 8, 10, 13, sqrt 2, ...) x 8 x 8 radii (separate, nested, internally / externally tangent, equal radii, concentric; within 1e-6 of tangency excluded unless exact); tangent points: 4 circles x 6 directions x d/r in {1+1e-9, 1+1e-6, 1.001, 1.1, sqrt 2, 2, 3, 10, 1e3} and points on / inside the perimeter; outer tangents: 2 centres x 10 offsets x 6 x 6 radii; segments: 4 circles x 40 segments (exactly tangent, chords, partial, inside, outside) in both senses, 3 polylines x 25 circles; three-point arcs: all ordered triples of the 12 integer points of the radius-5 circle x 3 centres; arcs: 3 centres x 3 radii x 18 start angles x 40 signed sweeps in [-2pi, 2pi] (box checked against both ends, the axis extremes inside the sweep and 720 samples); cached boxes of circles from every producer: new / from_point / clone (5 centres x 6 radii), from_3_points (every fifth ordered triple of the 12 integer points of the radius-5 circle x 5 centres x 3 scales), fitting_circle -> fit_circle (4 circles x 4 / 7 / 12 / 36 exact samples over a full turn or 3.5 rad x 5 initial guesses different from the answer x BestFit::All / Gaussian(3)), ransac (2 circles, 24 points + 3 outliers, 3 parameter sets), the circle field of arcs from circle_angles / circle_point_angle / three_points / to_arc / to_partial_arc; ROUND 4: the arc box clause for the circle_angles, circle_point_angle AND to_partial_arc form of every arc of the grid, and LONG sweeps through every constructor: 3 centres x 3 radii x 16 start angles x sweeps +-{270, 275, 285, 300, 315, 330, 345, 359} degrees (most of them leave out one axis extreme) built by circle_angles / to_partial_arc / circle_point_angle / three_points, and InscribedCircle::contact_arc for contact points 20 .. 90 degrees apart at 7 positions with the direction into / away from the gap");
+    let mut r = Report::new("circle pairs: 3 centres x 12 offsets (centre distances 0, 0.5, 1, 2, 3, 4, 5, 8, 10, 13, sqrt 2, ...) x 8 x 8 radii (separate, nested, internally / externally tangent, equal radii, concentric; within 1e-6 of tangency excluded unless exact); tangent points: 4 circles x 6 directions x d/r in {1+1e-9, 1+1e-6, 1.001, 1.1, sqrt 2, 2, 3, 10, 1e3} and points on / inside the perimeter; outer tangents: 2 centres x 10 offsets x 6 x 6 radii; segments: 4 circles x 40 segments (exactly tangent, chords, partial, inside, outside) in both senses, 3 polylines x 25 circles; three-point arcs: all ordered triples of the 12 integer points of the radius-5 circle x 3 centres; arcs: 3 centres x 3 radii x 18 start angles x 40 signed sweeps in [-2pi, 2pi] (box checked against both ends, the axis extremes inside the sweep and 720 samples); cached boxes of circles from every producer: new / from_point / clone (5 centres x 6 radii), from_3_points (every fifth ordered triple of the 12 integer points of the radius-5 circle x 5 centres x 3 scales), fitting_circle -> fit_circle (4 circles x 4 / 7 / 12 / 36 exact samples over a full turn or 3.5 rad x 5 initial guesses different from the answer x BestFit::All / Gaussian(3)), ransac (2 circles, 24 points + 3 outliers, 3 parameter sets), the circle field of arcs from circle_angles / circle_point_angle / three_points / to_arc / to_partial_arc; ROUND 4: the arc box clause for the circle_angles, circle_point_angle AND to_partial_arc form of every arc of the grid, and LONG sweeps through every constructor: 3 centres x 3 radii x 16 start angles x sweeps +-{270, 275, 285, 300, 315, 330, 345, 359} degrees (most of them leave out one axis extreme) built by circle_angles / to_partial_arc / circle_point_angle / three_points, and InscribedCircle::contact_arc for contact points 20 .. 90 degrees apart at 7 positions with the direction into / away from the gap; WAVE 5 (scale-aware tolerances 1e-9 r + 1e-14 |centre|): the pair grid at scales 2^-20 .. 2^20 and a base centre 1e6 away, radius 0, both call orders, intersection_interval ends == intersection points; centre distances r 2^-10 .. r 2^-30 between (nearly) equal circles; radii 1 / 4 units in the last place either side of external / internal tangency and decimal tangencies; tangent points in 8 directions (all quadrants, negative x axis) x 5 circles (1e6 from the origin, r 2^-20 / 2^20) x d/r up to 1e9 against the closed form; projection / distance at ratios 1e-6 .. 1e6; outer tangents for radii differing by 1e-3 .. 1e-11, all quadrants, centre distances to 1.3e7, scales 2^-20 / 2^20, gaps 0.5 .. 1e-4 from internal tangency; segments of 2^-10 .. 2^10 radii against the roots of the quadratic, end points exactly on the circle (parameter 0 / 1), circles of radius 5 * 2^-20 .. 5 * 2^20 and 1e6 away, segments 1000 r long, a zigzag curve of 240 edges (also 2e5 from the origin); arcs with start angles outside [-pi, pi] (to +-100 rad), sweep 0 and +-1e-6, r 2^-20 .. 2^20, centres 1e6 away, short sweeps straddling an axis extreme; three-point arcs on rings of radius 5/64 .. 5 * 2^20 up to 2e5 from the origin; circle boxes for centres 1e8 / radii 1e-9 .. 1e9");
     check_circle_pairs(&mut r);
     check_tangent_points(&mut r);
     check_outer_tangents(&mut r);
